@@ -443,3 +443,89 @@ def mem_swap(c):
         return [(c.st, Struct())]
     c.havoc_mut_args()
     return [(c.st, Struct())]
+
+
+# ------------------------------------------------------------------------------------------- fold / try_fold as loops
+
+FOLD = r"^<(std::slice::Iter(Mut)?<.*>|std::vec::IntoIter<.*>|std::iter::(Copied|Cloned)<std::slice::Iter<.*>>) as std::iter::Iterator>::(?P<op>try_fold|fold)::<.*>$"
+
+
+@first(FOLD)
+def fold_loop(c):
+    """`iter.fold(init, f)` / `iter.try_fold(init, f)` over a sequence iterator: analysed as the loop it is - the closure is
+    called in context on the accumulator and a summary element until the accumulator's abstract value is stable"""
+    from absint.interp import sys_widen, FailClosed
+    op = re.match(FOLD, c.name).group("op")
+    itv = c.deref(c.args[0])
+    init, f = c.args[1], c.args[2]
+    fc = c.deref(f)
+    if not (isinstance(itv, Iter) and isinstance(fc, Struct) and fc.tag and fc.tag in c.it.prog.bodies and not itv.maps and not itv.enumerated):
+        return None
+    cb = c.it.prog.bodies[fc.tag]
+    elem = summ(itv.items) if isinstance(itv.items, V) and not isinstance(itv.items, Empty) else None
+    acc_cell = "%s/%d.%d:acc" % (c.fr.id, c.bb, c.part)
+    elem_prefix = "%s/%d.%d:elem" % (c.fr.id, c.bb, c.part)
+    rt = c.ret_ty()
+    rpath = rt.get("path") if rt.get("k") == "adt" else None
+    # continue / break variants of the closure's result (try_fold only)
+    cont_idx = {"std::result::Result": 0, "std::option::Option": 1, "std::ops::ControlFlow": 0}.get(rpath)
+    if op == "try_fold" and cont_idx is None:
+        return None
+    head = c.st
+    head.cells[acc_cell] = init
+    exits = []
+    empty_iter = isinstance(itv.items, Empty) or c.st.sys.entails_eq(itv.len)
+    rounds = 0
+    while not empty_iter:
+        rounds += 1
+        if rounds > 12:
+            raise FailClosed("fold over an iterator does not stabilise in %s" % c.fr.body.key)
+        s = head.copy()
+        acc = s.cells[acc_cell]
+        ev = elem
+        if ev is None:
+            # an element of unknown value: materialised by the closure's parameter type
+            ev = c.it.top_of(s, cb, cb.locals[3]["ty"] if cb.arg_count >= 3 else cb.locals[2]["ty"], hint="elem", region_prefix=elem_prefix)
+        res = c.call_closure(s, f, [acc, ev], "fold")
+        if res is None:
+            return None
+        new = head
+        exits_round = []
+        for s2, r in res:
+            if s2.sys.bottom:
+                continue
+            if op == "fold":
+                a2 = r
+            else:
+                if not isinstance(r, Enum):
+                    return None
+                if (1 - cont_idx) in r.v and len(r.v) > 1:
+                    return None          # undecided outcome of the closure: give up on precision
+                if cont_idx not in r.v:
+                    exits_round.append((s2, r))
+                    continue
+                a2 = r.v[cont_idx].get(0)
+            s2 = s2.copy()
+            s2.cells[acc_cell] = a2
+            for k_ in [k_ for k_ in s2.cells if k_ not in head.cells and k_ != acc_cell and not k_.startswith(("wlog:", "ghost:"))]:
+                del s2.cells[k_]
+            j = c.it.join_states(new, s2, "%s/%d:fold" % (c.fr.id, c.bb))
+            if rounds > 3:
+                j.sys = sys_widen(new.sys, j.sys, thresholds=False)
+            new = j
+        exits = exits_round        # the breaks of the last (most general) round cover those of earlier rounds
+        if c.it.state_leq(new, head):
+            break
+        head = new
+    out = []
+    acc = head.cells.pop(acc_cell, init)
+    for k_ in [k_ for k_ in head.cells if k_.startswith(elem_prefix)]:
+        del head.cells[k_]
+    if op == "fold":
+        out.append((head, acc))
+    else:
+        out.append((head, Enum(rpath, {cont_idx: Struct({0: acc})})))
+        for s2, r in exits:
+            s2.cells.pop(acc_cell, None)
+            out.append((s2, r))
+    return out
